@@ -32,6 +32,7 @@ type Reply struct {
 	Status     int         `json:"status"`
 	StatusLine string      `json:"status_line,omitempty"` // overrides "HTTP/1.1 <status> <text>"
 	Accept     string      `json:"accept"`                // good | stale | other | mangled | missing | lower
+	StaleBack  int         `json:"stale_back,omitempty"`  // stale: the Accept of the dial this many dials back (default 1)
 	Upgrade    []string    `json:"upgrade"`               // header lines
 	Connection []string    `json:"connection"`
 	Extra      [][2]string `json:"extra,omitempty"`
@@ -165,6 +166,7 @@ type hsRunner struct {
 	keys []string
 	backendCert []tls.Certificate
 	proxyCert   []tls.Certificate
+	staleBack   int
 	shared      *websocket.Dialer
 	curDial     int
 	curTask     *Task
@@ -603,6 +605,7 @@ func (h *hsRunner) buildReply(r *Reply, key string, dialIdx int) []byte {
 	for _, v := range r.Connection {
 		b.WriteString("Connection: " + v + "\r\n")
 	}
+	h.staleBack = r.StaleBack
 	if a, ok := h.acceptValue(r.Accept, key, dialIdx); ok {
 		b.WriteString("Sec-WebSocket-Accept: " + a + "\r\n")
 	}
@@ -632,8 +635,12 @@ func (h *hsRunner) acceptValue(mode, key string, dialIdx int) (string, bool) {
 		return "", false
 	case "stale":
 		// the Accept that was right for an earlier dial of this run
-		if len(h.keys) >= 2 {
-			return acceptKey(h.keys[len(h.keys)-2]), true
+		back := h.staleBack
+		if back <= 0 {
+			back = 1
+		}
+		if len(h.keys) >= 1+back {
+			return acceptKey(h.keys[len(h.keys)-1-back]), true
 		}
 		return acceptKey("dGhlIHNhbXBsZSBub25jZQ=="), true
 	case "other":
